@@ -645,7 +645,7 @@ pub fn run_c07(cfg: &Cfg) -> (Part, Value, bool) {
         spec.inserts = true;
         let nacts = alphabet(&spec, k, maxl.min(129)).len();
         // the fixed kinds have small edit alphabets: one level deeper in the thorough tier
-        let depth = if !q && k.cap().is_some() { depth + 1 } else { depth };
+        let depth = if k.cap().is_some() { depth + 1 } else { depth };
         let o = explore(cfg, &mut part, &seen, &format!("depth-{} {} edits", depth, k.name()), roots, &spec, Some(depth), 30_000_000, Level::Lite);
         bounds.push(json!({"subject": k.name(), "mode": "depth", "depth": depth, "roots": nroots, "root_lengths": lengths, "actions_per_state": nacts, "states": o.states}));
     }
@@ -700,7 +700,7 @@ pub fn run_c18(cfg: &Cfg) -> (Part, Value, bool) {
         part.require(r);
     }
     let mut bounds: Vec<Value> = Vec::new();
-    let depth = if q { 2 } else { 3 };
+    let depth = 3;
     for k in [K::D, K::A] {
         // with_capacity(c): empty, capacity >= c
         let mut roots: Vec<Vo> = Vec::new();
